@@ -201,6 +201,20 @@ CHECKS = {
         TRUSTED + "; analytic Gaussian-mixture templates; tolerances 0.1 / 0.5 px and score >= 0.9 from the property",
         "DESIGN.md 4/C04",
     ),
+    "C01": (
+        "model_checking",
+        "spec/AlignPose.tla models Plant / Perturb / Align / WriteBack in exact arithmetic (Zyx.tla); TLC proves "
+        "PoseRecovered and FeaturesDescribePose for every truth orientation (24 axis-aligned + rational), searched rotation, "
+        "perturbation inside the search box, scale, loader kind, model and order, and characterises the historical write-back "
+        "defect exactly (wrong iff the found rotation moves the shift). Every emitted case is replayed end to end on the real "
+        "loaders (single, batch, grouped, template-free, multi-template) with a tomogram built by direct voxel placement, and "
+        "output position, orientation and the shift/rotation/score features are compared with the expected state; the "
+        "write-back algebra is also validated on every recorded _post_align call by TLC (Trace_Align.tla, in the C05 check, "
+        "including the repository's own tests).",
+        "TLA+ spec AlignPose.tla model-checked by TLC; emitted behaviours replayed end to end on real loaders; write-back traces validated by TLC",
+        TRUSTED + "; smooth asymmetric templates on which Rot24 acts as an exact voxel permutation; tolerance 0.15 px / 0.05 deg",
+        "DESIGN.md 4/C01",
+    ),
 }
 
 REASON_TODO = "check not built yet in this round (planned: see DESIGN.md section 4)"
